@@ -8,7 +8,7 @@ changed build was already tested.
 
   seedsuite.py [<seed-id> ...]      (default: every directory under seeded/)
 """
-import json, os, subprocess, sys, time, shutil
+import re, json, os, subprocess, sys, time, shutil
 
 ROOT = os.path.dirname(os.path.dirname(os.path.abspath(__file__)))
 WT = "/tmp/seedsuite"
@@ -36,7 +36,7 @@ def suite():
 
 
 def main():
-    ids = sys.argv[1:] or sorted(os.listdir(os.path.join(ROOT, "seeded")))
+    ids = sys.argv[1:] or sorted(d for d in os.listdir(os.path.join(ROOT, "seeded")) if re.match(r"C\d\d-\d+$", d))
     head = subprocess.check_output(["git", "-C", "/repo", "rev-parse", "HEAD"], text=True).strip()
     if not os.path.isdir(WT):
         subprocess.check_call(["git", "-C", "/repo", "worktree", "add", "--detach", WT, head], stdout=subprocess.DEVNULL, stderr=subprocess.DEVNULL)
